@@ -16,7 +16,8 @@ UNIT_MAP = {
     'cao_lang_table': ['cao_lang_table'],
     'object_laws': ['object_laws'],
     'frames': ['closure_capture'],
-    'gc_roots': ['gc_roots', 'callback_mutation', 'operand_rooting'],
+    'gc_roots': ['gc_roots', 'callback_mutation', 'operand_rooting', 'upvalue_list'],
+    'upvalue_list': ['upvalue_list', 'closure_capture'],
     'host_values': ['gc_roots'],
     'stdlib_natives': ['native_keys', 'callback_mutation'],
     'instr_rooting': ['operand_rooting'],
